@@ -281,13 +281,178 @@ def rng : P String := do
   let v := { v with fails := (fs.filter (fun (s : String) => s.startsWith "value_outside")).map (fun s => s!"{comp g} {s}") }
   return v.render
 
+/-! rPOMCP -/
+
+structure RNode where
+  path : Path
+  n : Nat
+  tb : List (Nat × Nat)
+  km : Rat
+  v : Rat
+  actV : Rat
+  acts : List (Nat × Rat)
+
+def pPair : P (Nat × Nat) := do let a ← P.nat; let b ← P.nat; pure (a, b)
+def pRNode : P RNode := do
+  let path ← P.list pKey; let n ← P.nat; let tb ← P.list pPair
+  let km ← P.q; let v ← P.q; let actV ← P.q; let acts ← P.list pAct
+  pure { path, n, tb, km, v, actV, acts }
+
+structure RCallRec where
+  fresh : Bool
+  support : List Nat
+  a : Nat
+  k : Nat
+  h : Nat
+  iters : Nat
+  ret : Nat
+  log : List Step
+  dump : List RNode
+
+def pRCall : P (Option RCallRec) := do
+  let t ← P.tok
+  if t == "end" then pure none
+  else
+    let (fresh, support, a, k) ←
+      (if t == "fresh" then do let s ← P.nats; pure (true, s, 0, 0)
+       else if t == "adv" then do let a ← P.nat; let k ← P.nat; pure (false, [], a, k)
+       else P.fail : P (Bool × List Nat × Nat × Nat))
+    let h ← P.nat; let iters ← P.nat; let ret ← P.nat
+    let log ← P.list pStep
+    let dump ← P.list pRNode
+    pure (some { fresh, support, a, k, h, iters, ret, log, dump })
+
+def pRCalls : Nat → P (List RCallRec)
+  | 0 => P.fail
+  | fuel+1 => do
+    match ← pRCall with
+    | none => pure []
+    | some c => do let r ← pRCalls fuel; pure (c :: r)
+
+def findRNode (d : List RNode) (p : Path) : Option RNode := d.find? (fun n => n.path == p)
+
+def compareRTree (t : R.RTree) (d : List RNode) : List String × List String :=
+  let s0 : List String := if t.nodes.length != d.length then [s!"node_count model={t.nodes.length} impl={d.length}"] else []
+  d.foldl (fun (acc : List String × List String) n =>
+    let p := n.path
+    let sd := acc.1
+    let sd := if !(t.ex p) then sd ++ [s!"node {p} absent in model"] else sd
+    let sd := if t.nN p != n.n then sd ++ [s!"N at {p} model={t.nN p} impl={n.n}"] else sd
+    let sd := if t.nA p != n.acts.length then sd ++ [s!"nA at {p} model={t.nA p} impl={n.acts.length}"] else sd
+    -- particle counts (non-root: the root's map is moved into the private sampling vector)
+    let sd := if p != [] && !(n.tb.all (fun sc => t.tb p sc.1 == sc.2) && (t.keys p).all (fun s => t.tb p s == 0 || n.tb.any (fun sc => sc.1 == s)))
+              then sd ++ [s!"particles at {p} model={(t.keys p).map (fun s => (s, t.tb p s))} impl={n.tb}"] else sd
+    let vd := acc.2
+    let vd := if p != [] && !(closeQ tol (t.km p) n.km) then vd ++ [s!"knowledge at {p} model={ratStr (t.km p)} impl={ratStr n.km}"] else vd
+    let vd := if !(closeQ tol (t.v p) n.v) then vd ++ [s!"node V at {p} model={ratStr (t.v p)} impl={ratStr n.v}"] else vd
+    let vd := if p != [] && !(closeQ tol (t.actV p) n.actV) then vd ++ [s!"actionsV at {p} model={ratStr (t.actV p)} impl={ratStr n.actV}"] else vd
+    (List.range n.acts.length).foldl (fun (acc2 : List String × List String) a =>
+      let (an, av) := n.acts.getD a (0, 0)
+      let s2 := if t.aN p a != an then acc2.1 ++ [s!"N at {p} action {a} model={t.aN p a} impl={an}"] else acc2.1
+      let v2 := if !(closeQ tol (t.aV p a) av) then acc2.2 ++ [s!"V at {p} action {a} mean_of_datapoints={ratStr (t.aV p a)} impl={ratStr av}"] else acc2.2
+      (s2, v2)) (sd, vd)) (s0, [])
+
+/-- clauses on one rPOMCP dump alone: particle counts add up to the visits; every particle state is reachable
+    from a particle of the parent (root: unknown, the sampling vector is private) -/
+def rDumpClauses (g : Gm) (d : List RNode) : List String :=
+  d.foldl (fun (acc : List String) n =>
+    match n.path.reverse with
+    | [] => acc
+    | (a, k) :: revParent =>
+      let parent := revParent.reverse
+      let tot := n.tb.foldl (fun s x => s + x.2) 0
+      let acc := if tot != n.n then acc ++ [s!"particle_inconsistent at {n.path}: {tot} particles for {n.n} visits"] else acc
+      match findRNode d parent with
+      | none => acc ++ [s!"orphan_node at {n.path}"]
+      | some pn =>
+        if parent == [] then acc else
+        n.tb.foldl (fun acc sc =>
+          let x := sc.1
+          if sc.2 == 0 then acc else
+          let ok := pn.tb.any (fun pc => pc.2 != 0 &&
+            (let s := pc.1
+             (if g.isTerm s then x % g.nb == s % g.nb && k == 0
+              else (g.out.getD ((s % g.nb) * g.amax + a) []).any (fun oc => oc.1 == x % g.nb && oc.2.1 == k)) &&
+             (if g.layered then x / g.nb == (if s / g.nb + 1 ≥ g.tcap then g.tcap - 1 else s / g.nb + 1) else x / g.nb == s / g.nb)))
+          if ok then acc else acc ++ [s!"particle_inconsistent at {n.path}: state {x} not reachable by action {a} obs {k} from the parent's particles {pn.tb}"]) acc) []
+
+structure RSt where
+  t : R.RTree
+  prev : List RNode
+  diffs : List String
+  fails : List String
+  sims : Nat
+
+def sameRNode (x y : RNode) : Bool :=
+  x.path == y.path && x.n == y.n && x.km == y.km && x.actV == y.actV &&
+  (x.path == [] || (x.tb == y.tb && x.v == y.v)) &&
+  (x.acts == y.acts || (x.path == [] && x.acts == [] && y.acts.all (fun a => a.1 == 0 && a.2 == 0)))
+
+def runRCall (g : Gm) (m : Mdl) (kk : Nat) (st : RSt) (c : RCallRec) : RSt :=
+  let cn := "rPOMCP"
+  let rootD := findRNode c.dump []
+  let rootNA := match rootD with | some r => r.acts.length | none => 0
+  let allS := List.range g.nS
+  let op := if c.fresh then Op.fresh c.support g.amax c.h c.iters else Op.adv c.a c.k allS g.amax c.h c.iters
+  let hit := !c.fresh && (findRNode st.prev [(c.a, c.k)]).isSome
+  let fails := st.fails
+  let fails := if c.ret ≥ rootNA || rootNA != g.amax then fails ++ [s!"{cn} invalid_action returned={c.ret} actions={g.amax} root_children={rootNA}"] else fails
+  let fails := fails ++ (rDumpClauses g c.dump).map (fun s => s!"{cn} {s}")
+  let fails := if !c.fresh && c.iters == 0 then
+      (if hit then
+         (let sub := st.prev.filterMap (fun n => match n.path with | k' :: r => if k' == (c.a, c.k) then some { n with path := r } else none | [] => none)
+          if sub.length == c.dump.length && sub.all (fun x => match findRNode c.dump x.path with | some y => sameRNode x y | none => false) then fails
+          else fails ++ [s!"{cn} advance_not_subtree after ({c.a},{c.k})"])
+       else if c.dump.length != 1 || !(c.dump.all (fun n => n.n == 0 && n.acts.all (fun a => a.1 == 0 && a.2 == 0))) then
+          fails ++ [s!"{cn} advance_restart_not_clean after ({c.a},{c.k}) nodes={c.dump.length}"] else fails)
+    else fails
+  let diffs := st.diffs
+  let (t', diffs, fails) := match R.rcall m kk st.t op c.log with
+    | none => (st.t, diffs ++ [s!"{cn} trace_not_a_run call h={c.h} iters={c.iters} steps={c.log.length}"], fails)
+    | some (t', rest) =>
+      let diffs := if rest.length != 0 then diffs ++ [s!"{cn} trace_longer_than_run extra_steps={rest.length} h={c.h} iters={c.iters}"] else diffs
+      let (sd, vd) := compareRTree t' c.dump
+      let diffs := diffs ++ (sd.take 3).map (fun s => s!"{cn} tree {s}")
+      let fails := if sd.isEmpty && rest.length == 0 then fails ++ ((vd.filter (fun (s : String) => s.startsWith "V at")).take 1).map (fun s => s!"{cn} v_not_mean {s}") else fails
+      let diffs := diffs ++ ((vd.filter (fun (s : String) => !(s.startsWith "V at") || !sd.isEmpty)).take 2).map (fun s => s!"{cn} tree {s}")
+      (t', diffs, fails)
+  let rootVs := match rootD with | some r => r.acts.map (·.2) | none => []
+  let diffs := match rootVs with
+    | [] => diffs
+    | v :: vs => if firstArgmax vs 1 0 v != c.ret then diffs ++ [s!"{cn} returned_action model={firstArgmax vs 1 0 v} impl={c.ret}"] else diffs
+  { t := t', prev := c.dump, diffs := diffs, fails := fails, sims := st.sims + c.iters }
+
+def rrun : P String := do
+  let g ← pGm
+  let expl ← P.bool; let kk ← P.nat
+  let calls ← pRCalls 64
+  P.eof
+  let m := { g.mdl expl with pomcp := true }
+  let st0 : RSt := { t := R.RTree.fresh [] 0, prev := [], diffs := [], fails := [], sims := 0 }
+  let st := calls.foldl (runRCall g m kk) st0
+  -- a value comparison decided by less than the tolerance: the double run may legitimately branch the other way
+  match st.t.margin with
+  | some d => if d < tol && st.fails.isEmpty && !st.diffs.isEmpty then return "skip ill_conditioned" else pure ()
+  | none => pure ()
+  let v : Verdict := { tag := (if st.sims == 0 then "trivial" else "rPOMCP"), diffs := st.diffs, fails := st.fails }
+  return v.render
+
+/-- `rcnt n (N sumA)*`: the literal count clause on rPOMCP's belief nodes -/
+def rcnt : P String := do
+  let l ← P.list pPair; P.eof
+  let v : Verdict := { tag := if l.length ≤ 1 then "trivial" else "rcnt" }
+  let bad := l.filter (fun x => x.1 != x.2)
+  let v := v.failIf (!bad.isEmpty) s!"rPOMCP node_count_ne_sum {bad.length} of {l.length} nodes, e.g. N={(bad.headD (0,0)).1} sum over actions={(bad.headD (0,0)).2}"
+  return v.render
+
 def handle (toks : List String) : String :=
   let r := match toks with
     | "run" :: rest => P.run run rest
     | "hz" :: rest => P.run hz rest
     | "hzp" :: rest => P.run hzp rest
     | "rng" :: rest => P.run rng rest
-    | "rrun" :: _ => some "skip rpomcp_not_yet"
+    | "rrun" :: rest => P.run rrun rest
+    | "rcnt" :: rest => P.run rcnt rest
     | _ => none
   r.getD "bad-op"
 
